@@ -264,6 +264,16 @@ def r05_4(ctx):
     d = prog.own_method("DirectMethod", "transcribe")
     calls = [c for c in walk_no_nested(d.node) if is_call_to(c, "add_objective")]
     ok = len(calls) == 1 and Norm(None).key(calls[0].args[0]) == "self.eval_top(stage,stage._objective)"
+    # ... and it is reached whenever phase 1 runs: no condition other than the phase (and the rejections) stands before it
+    phd = d.params[2] if len(d.params) > 2 else "phase"
+    try:
+        on1 = [c for c, lp in calls_on_path(d.node, {phd: 1}) if is_call_to(c, "add_objective")]
+        ok = ok and len(on1) == 1
+    except Unknown as e:
+        ok = False
+        calls = []
+        ctx.fail("DirectMethod.transcribe reaches the objective on every phase-1 path", detail="whether the parent's objective terms reach the NLP depends on something else than the phase: %s" % e,
+                 expected="self.opti.add_objective(...) unconditionally in phase 1", found="undecidable condition before it", fi=d)
     ctx.check(ok, "DirectMethod.transcribe adds the parent's own objective once", detail="parent objective", expected="self.opti.add_objective(self.eval_top(stage, stage._objective))", found="; ".join(ast.unparse(c) for c in calls), fi=d)
     w = prog.own_method("OptiWrapper", "add_objective")
     asg = [st for st in walk_no_nested(w.node) if isinstance(st, ast.Assign) and ast.unparse(st.targets[0]) == "self.objective"]
